@@ -8,6 +8,7 @@ import (
 	"net"
 	"strings"
 	"sync"
+	"sync/atomic"
 
 	"github.com/creachadair/jrpc2"
 	"github.com/creachadair/jrpc2/channel"
@@ -22,6 +23,16 @@ import (
 // in-memory net.Listener whose connections are net.Pipe pairs. The listener
 // honours no context; NetAccepter must close it when the context ends, and
 // Loop must map the resulting closed-listener error to nil.
+
+// c20halfConn adds the CloseWrite method of *net.TCPConn / *net.UnixConn to an
+// in-memory connection. Nothing here needs a half-close; CloseWrite alone leaves the
+// connection open in both directions as far as the peer can tell.
+type c20halfConn struct {
+	net.Conn
+	closeWrites atomic.Int32
+}
+
+func (c *c20halfConn) CloseWrite() error { c.closeWrites.Add(1); return nil }
 
 type c20addr struct{}
 
@@ -157,7 +168,13 @@ func c20netExec(c *vt.Ctx, nconn int, ending string, failLast bool, ctrl *sched.
 			cconn, sconn := net.Pipe()
 			cl := &c20netClient{conn: cconn, rdDone: make(chan struct{})}
 			clients = append(clients, cl)
-			lst.conns <- sconn
+			if k%2 == 0 {
+				// a connection that can be half-closed, as TCP and Unix-domain ones can: closing a
+				// channel still means closing the connection, not just its writing side
+				lst.conns <- &c20halfConn{Conn: sconn}
+			} else {
+				lst.conns <- sconn
+			}
 			go func() {
 				defer close(cl.rdDone)
 				rd := bufio.NewReader(cconn)
